@@ -698,6 +698,11 @@ func normalizePath(dst, src []byte) []byte {
 		b = b[:nn+1]
 	}
 
+	// remove trailing /. (RFC 3986, section 5.2.4: "/a/b/." becomes "/a/b/")
+	if len(b) >= 2 && b[len(b)-2] == '/' && b[len(b)-1] == '.' {
+		b = b[:len(b)-1]
+	}
+
 	if filepath.Separator == '\\' {
 		// remove \.\ parts
 		for {
